@@ -1,6 +1,15 @@
-(* C03 - placeholder while the proofs are being built *)
+(* C03 - Concurrent hash set/map: linearizable insert-if-absent, one winner per key.
+   Only statements; proofs are `exact <lemma of HC/HCProofs.v>`.  `Reach hash cap grow progs s` = "s is reachable from the
+   initial state of client programs `progs` (any number of threads, any mix of emplace/find) on a container of initial
+   capacity `cap` (None = default-constructed placeholder) under SOME schedule"; `hash` is an arbitrary function, so every
+   theorem is quantified over all schedules, all programs, all hash functions (colliding hashes, equal tags), all
+   capacities and any number of growth steps.  (work in progress: results-level theorems follow) *)
 From Coq Require Import ZArith List Bool.
-Require Import Verif.HC.HCModel Verif.HC.HCProofs.
+Require Import Verif.Gen.Gen_hash_table Verif.Gen.Gen_hash_table_conc Verif.Conc.Machine Verif.HS.HSModel
+               Verif.HC.HCModel Verif.HC.HCProofs.
+Import ListNotations.
+Local Open Scope Z_scope.
+
 Theorem c03_memory_order_obligations : orders_ok = true.
 Proof. exact hc_orders_ok. Qed.
 Print Assumptions c03_memory_order_obligations.
